@@ -329,7 +329,73 @@ def advance_rule(repo: Repo, rep: Report, rid: str) -> None:
     rep.check(len(imag) == 2, rid, f"{fi.key}:tracking", "both tracked offsets advance by that size", f"{len(imag)} tracked offsets advance by 'size' (expected 2)", fi.loc())
 
 
+def block_alignment_rule(repo: Repo, rep: Report, rid: str) -> None:
+    rep.rule(rid, "a block whose start is only aligned at run time (aligned mode, field.offset is None) never absorbs a field with a larger alignment "
+                  "than its first field: padding inside a block is computed relative to the block start")
+    gf = repo.func("compiler.py", "_ReadSourceGenerator._generate_fields")
+    info = repo.func("compiler.py", "_generate_struct_info")
+    # the assumption is only present while the block-relative padding exists
+    rel = [x for x in walk_body(info.node.body) if isinstance(x, ast.BinOp) and isinstance(x.op, ast.BitAnd) and "imaginary_offset" in norm(x)]
+    if not rel:
+        rep.ok(rid, f"{info.key}:block-relative padding", "no block-relative padding is computed any more", info.loc(), nontrivial=False)
+        return
+    g = CFG(gf.node)
+    appends = [n for n in g.nodes if n.kind == "stmt" and any(isinstance(c, ast.Call) and call_name(c) == "append" and norm(c.func.value) == "current_block" for c in ast.walk(n.ast))]
+    guards = [n for n in g.nodes if n.kind == "if" and "alignment" in norm(n.ast.test) and "current_block" in norm(n.ast.test) and "field.offset is None" in norm(n.ast.test)
+              and any(isinstance(c, ast.Call) and call_name(c) == "flush" for s2 in n.ast.body for c in ast.walk(s2))]
+    loops = [x for x in g.nodes if x.kind == "for" and norm(x.ast.iter) == "self.fields"]
+    ok = bool(appends) and bool(guards) and all(g.must_pass(loops[0].id, a.id, {x.id for x in guards}) for a in appends)
+    cmp_ok = any(isinstance(c, ast.Compare) and isinstance(c.ops[0], (ast.Gt, ast.Lt, ast.GtE, ast.LtE, ast.NotEq)) and "field.alignment" in norm(c) and "current_block[0].alignment" in norm(c)
+                 for x in guards for c in ast.walk(x.ast.test))
+    rep.check(ok and cmp_ok, rid, f"{gf.key}:block-alignment", "a field with a larger alignment than the block's first field flushes the block first (dynamic offsets)",
+              "fields without a static offset are merged into one block although a later one needs stricter alignment than the block start is known to have: "
+              "{ uint8 n; uint8 b[n]; uint32 c; uint8 d; uint64 e; } reads e from the wrong position for most n, the interpreted reader aligns on the real position",
+              gf.loc(appends[0].ast if appends else None))
+
+
+def discriminator_rule(repo: Repo, rep: Report, rid: str) -> None:
+    rep.rule(rid, "the block packer decides about byte-sliced types on the type the field is *read as* (read_type, Enum/Flag/Pointer unwrapped): every "
+                  "issubclass test against Int / Wchar / Char takes read_type, never the declared (element) type")
+    pk = repo.func("compiler.py", "_ReadSourceGenerator._generate_packed")
+    n = 0
+    for c in walk_body(pk.node.body):
+        if isinstance(c, ast.Call) and call_name(c) == "issubclass" and len(c.args) == 2:
+            classes = [norm(e) for e in (c.args[1].elts if isinstance(c.args[1], (ast.Tuple, ast.List)) else [c.args[1]])]
+            if not any(k in ("Int", "Wchar", "Char") for k in classes):
+                continue
+            n += 1
+            subj = norm(c.args[0])
+            rep.check(subj == "read_type", rid, f"{pk.key}:{short(c, 60)}", "dispatches on read_type",
+                      f"'{short(c, 60)}' tests the declared type '{subj}', but the bytes were sliced according to read_type: for an Enum/Flag over a byte-based "
+                      f"Int type (enum E : uint24; E x[2]) the two decisions disagree and the array is split per byte instead of per element", pk.loc(c))
+    rep.floor(rid, "byte-sliced type tests in the block packer", n, 3)
+
+
+def pointer_value_rule(repo: Repo, rep: Report, rid: str) -> None:
+    rep.rule(rid, "pointers built by the block packer receive integers: a pointer whose read type is not a struct-packed integer is refused "
+                  "(TypeError -> interpreted fallback) before a raw byte slice can reach Pointer.__new__")
+    pk = repo.func("compiler.py", "_ReadSourceGenerator._generate_packed")
+    g = CFG(pk.node)
+    emits = [n for n in g.nodes if n.kind == "stmt" and any(isinstance(x, (ast.Constant, ast.JoinedStr)) and "__new__" in norm(x) and "stream, r" in norm(x) for x in ast.walk(n.ast))]
+    guards = set()
+    for n in g.nodes:
+        if n.kind == "if" and any(isinstance(x, ast.Raise) and "TypeError" in norm(x) for s2 in n.ast.body for x in ast.walk(s2)):
+            t = norm(n.ast.test)
+            if "Packed" in t and ("pointer" in t.lower() or "Pointer" in t):
+                guards.add(n.id)
+    loops = [x for x in g.nodes if x.kind == "for"]
+    ok = bool(emits) and bool(guards) and all(g.must_pass(loops[0].id, e.id, guards) for e in emits)
+    conv = any("cs.pointer(" in norm(x) for e in emits for x in ast.walk(e.ast) if isinstance(x, (ast.Constant, ast.JoinedStr)))
+    rep.check(ok or conv, rid, f"{pk.key}:pointer-values", "byte-based pointer types are refused before a pointer is built from the block data",
+              "the block packer hands the getter straight to Pointer.__new__: when cs.pointer is a byte-based Int type (uint24, uint128) the getter is a bytes slice "
+              "and every parse of the compiled structure raises ValueError, while the interpreted reader works", pk.loc(emits[0].ast if emits else None))
+    rep.floor(rid, "pointer constructions in the block packer", len(emits), 2)
+
+
 def run(repo: Repo, rep: Report, tier: str) -> None:
+    block_alignment_rule(repo, rep, "C03.R12")
+    discriminator_rule(repo, rep, "C03.R13")
+    pointer_value_rule(repo, rep, "C03.R14")
     advance_rule(repo, rep, "C03.R11")
     positioning_rule(repo, rep, "C03.R8")
     from .c06 import unit_switch_rule
